@@ -16,7 +16,7 @@ Open Scope nat_scope.
    scalars: 0=n_col_ 1=n_row_ 2=col 3=row
    arrays: 0=cv 1=step1 *)
 Definition cbca_step_1 : kernel :=
-  mkKernel [(F32, 2)]
+  mkKernel [(F32, 2)] 4 2
   [
     SAssign 0 (EShape 0 0);
     SAssign 1 (EShape 0 1);
@@ -37,7 +37,7 @@ Definition cbca_step_1 : kernel :=
    scalars: 0=n_col_ 1=n_row_ 2=col 3=row 4=right 5=left
    arrays: 0=step1 1=cross_left 2=cross_right 3=range_col 4=range_col_right 5=step2 6=sum_step2 *)
 Definition cbca_step_2 : kernel :=
-  mkKernel [(F64, 2); (I16, 3); (I16, 3); (I64, 1); (I64, 1)]
+  mkKernel [(F64, 2); (I16, 3); (I16, 3); (I64, 1); (I64, 1)] 6 7
   [
     SAssign 0 (EShape 0 0);
     SAssign 1 (EShape 0 1);
@@ -58,7 +58,7 @@ Definition cbca_step_2 : kernel :=
    scalars: 0=n_col_ 1=n_row_ 2=col 3=row
    arrays: 0=step2 1=step3 *)
 Definition cbca_step_3 : kernel :=
-  mkKernel [(F64, 2)]
+  mkKernel [(F64, 2)] 4 2
   [
     SAssign 0 (EShape 0 0);
     SAssign 1 (EShape 0 1);
@@ -76,7 +76,7 @@ Definition cbca_step_3 : kernel :=
    scalars: 0=n_col_ 1=n_row_ 2=col 3=row 4=top 5=bot
    arrays: 0=step3 1=sum2 2=cross_left 3=cross_right 4=range_col 5=range_col_right 6=step4 7=sum4 *)
 Definition cbca_step_4 : kernel :=
-  mkKernel [(F64, 2); (F32, 2); (I16, 3); (I16, 3); (I64, 1); (I64, 1)]
+  mkKernel [(F64, 2); (F32, 2); (I16, 3); (I16, 3); (I64, 1); (I64, 1)] 6 8
   [
     SAssign 0 (EShape 0 0);
     SAssign 1 (EShape 0 1);
@@ -103,7 +103,7 @@ Definition cbca_step_4 : kernel :=
    scalars: 0=len_arms 1=intensity 2=n_col_ 3=n_row_ 4=col 5=row 6=left_len 7=left 8=right_len 9=right 10=up_len 11=up_col 12=bot_len 13=bot
    arrays: 0=image 1=cross *)
 Definition cross_support : kernel :=
-  mkKernel [(F32, 2); (I64, 0); (F32, 0)]
+  mkKernel [(F32, 2); (I64, 0); (F32, 0)] 14 2
   [
     SAssign 2 (EShape 0 0);
     SAssign 3 (EShape 0 1);
